@@ -128,6 +128,7 @@ def render(q, case):
         kw['plain'] = True
         kind = 'pbm'
     out = io.StringIO() if kind in outoracle.TEXT_KINDS else io.BytesIO()
+    common.earlier_saves(q, case, core.REC)
     q.save(out, kind=kind, **kw)
     return out.getvalue()
 
